@@ -271,6 +271,26 @@ Theorem C09_queries_agree : forall fx st h,
 Proof. exact queries_agree. Qed.
 Print Assumptions C09_queries_agree.
 
+(* END TO END, repaired code, ALL histories, every handle value: is_running is 1 exactly when the handle resolves
+   to a slot whose timer is still in the heap; then expire_time_get is that timer's expiry
+   = min (add + duration, 2^64 - 1) > 0 and the time remaining is max 0 (expiry - clock); otherwise (stale or
+   never-issued handle, deleted, expired-and-queued, dispatched) all three queries answer 0; time remaining > 0
+   implies running. *)
+Theorem C09_queries_all_histories : forall beh ops hz0 clk0 cstep0 h,
+  0 < hz0 -> 0 < clk0 <= LT_UINT64_MAX -> wf2_beh beh -> Forall wf2_op ops ->
+  let st := run fixed beh (lp_init hz0 clk0 cstep0) ops in
+  (is_running fixed st h = 1 \/ is_running fixed st h = 0) /\
+  (is_running fixed st h = 1 <->
+     exists i s, timer_from_handle fixed st h = LOk i s /\ s_state s = LT_ENTRY_ACTIVE) /\
+  (is_running fixed st h = 1 ->
+     exists tm, mem (ents (heap st)) tm /\ t_exp tm = Z.min (t_add tm + t_dur tm) LT_UINT64_MAX /\ 0 < t_exp tm /\
+                expire_time_get fixed st h = t_exp tm /\
+                fst (time_remaining fixed st h) = Z.max 0 (t_exp tm - clk st)) /\
+  (is_running fixed st h = 0 -> expire_time_get fixed st h = 0 /\ fst (time_remaining fixed st h) = 0) /\
+  (fst (time_remaining fixed st h) > 0 -> is_running fixed st h = 1).
+Proof. exact queries_all_histories. Qed.
+Print Assumptions C09_queries_all_histories.
+
 (* repaired code: every expire_time computed at a positive clock is positive, for every 64-bit duration, so a
    pending timer is never reported "not running" *)
 Theorem C09_expire_time_positive : forall now d, 0 < now <= LT_UINT64_MAX -> u64 d -> 0 < expire_of fixed now d.
